@@ -78,7 +78,9 @@ func init() {
 		Rule: "full cross product of {8 outstanding-ID sets} x {6 InResponseTo values} at Response, confirmation 1 and optional confirmation 2 x AllowIDPInitiated x custom validator x {XML, POST form} x signing layout, " +
 			"plus the artifact entry point driven through ParseResponse with a resolver that answers the ArtifactResolve ID actually generated; each case is a harness-signed message pushed through the public API and compared with a three-valued reference model. " +
 			"non-trivial = reference verdict is MUST_ACCEPT or MUST_REJECT and the case differs from the all-default one; distinct = distinct coordinate tuple",
-		Bounds:      func(tier string) string { return "full product, no deviation bound (quick = thorough); artifact path: 6 ArtifactResponse.InResponseTo x 8 sets x 6 x 6 x 3 layouts x AllowIDPInitiated + 4 SOAP look-alike envelopes" },
+		Bounds: func(tier string) string {
+			return "full product, no deviation bound (quick = thorough); artifact path: 6 ArtifactResponse.InResponseTo x 8 sets x 6 x 6 x 3 layouts x AllowIDPInitiated + 4 SOAP look-alike envelopes"
+		},
 		Assumptions: []string{"harness-signed messages built with goxmldsig and keys in /verif/keys", "clock pinned through saml.TimeNow/saml.Clock", "reference model written from the property statement (absent InResponseTo == empty string)"},
 		Run:         runC04,
 		CapQuick:    5 * time.Minute,
